@@ -171,7 +171,11 @@ func (e *c16Env) setup(in c16In, r *rand.Rand) (*c16Hist, error) {
 			continue
 		}
 		addr := h.addrs[o.Addr]
-		if stackFor[addr] == nil {
+		// every issuance builds its own solver objects (newACMEClient makes fresh httpSolver /
+		// tlsALPNSolver values that meet only in the package-level table keyed by address); the
+		// challenges of ONE order with several names go through the same objects. Both occur:
+		// order i gets fresh objects unless i%3 == 2 (then it shares those of the address's last order).
+		if stackFor[addr] == nil || i%3 != 2 {
 			hostp, portp, _ := net.SplitHostPort(addr)
 			var port int
 			fmt.Sscanf(portp, "%d", &port)
